@@ -43,7 +43,7 @@ ASSUMPTIONS = [
 ]
 TIERS = {
     "quick": {"shards": 16, "cases": 1200, "timeout": 600},
-    "thorough": {"shards": 16, "cases": 36000, "timeout": 7200},
+    "thorough": {"shards": 16, "cases": 72000, "timeout": 7200},
 }
 FLOORS = {
     # monitor-side reach only (contract evaluations, cases pushed through the real code); sized at <= 1/3 of the quick counters
